@@ -171,6 +171,21 @@ class Sel:
         return canon.expr(F, i) if self.canon else F.render(i)
 
     def edge_select(self, F, bid, key, truth, ctx):
+        if self.conds is not None and self.canon and ctx.cond_node is None and getattr(ctx, "switch", None):
+            # `case E:` of `switch (x)` reads like the test `x == E` being true (an if-chain gives the same token)
+            node, cname, cval, others = ctx.switch
+            if cval is None:
+                return None
+            text = "%s == %s" % (canon.expr(F, node), cname if cname else cval)
+            try:
+                r = self.conds(text, F, node)
+            except TypeError:
+                r = self.conds(text)
+            if isinstance(r, tuple):
+                return ("if", r[0], not bool(r[1]), bid)
+            if isinstance(r, str):
+                return ("if", r, True, bid)
+            return ("if", text, True, bid) if r else None
         if self.conds is None or ctx.cond_node is None:
             return None
         if self.canon:
